@@ -104,7 +104,7 @@ def kv(fields):
 
 def run(res, a):
     thorough = (a.tier == "thorough")
-    proofs_ok = vlib.proof_stage(res, "C19")
+    proofs_ok = vlib.proof_stage(res, "C19", with_override=True)
     res.assumptions += [
         "Linux/glibc x86-64, gcc; the library is built with the defines and code-generation flags of /repo's CMake target (-O2 -DNDEBUG -fvisibility=hidden -DMI_MALLOC_OVERRIDE -DMI_SHARED_LIB_EXPORT), as C",
         "symbol resolution order of the dynamic linker (LD_PRELOAD first) and of the static linker (object before libc) is trusted; it is observed, not proved: T resolve records",
